@@ -178,6 +178,66 @@ def run_two_classes(length):
   return {'n': n, 'keys': n, 'viol': viol, 'sample': {'two_classes_sequences': n}}
 
 
+def run_concurrent(length):
+  """Aggregation yields to the loop before each metric; updates made by other greenlets land in between.  For every sequence of
+  `length` counter/rate increments (to a source that already has a series and to one that does not) and every placement of those
+  increments before / between / after the aggregation's steps, the total reported for a metric must be the total of some prefix
+  of the increments to that metric (amounts are distinct powers of two, so every prefix has its own total)."""
+  import gevent
+  from scales.varz import VarzReceiver, VarzAggregator
+  V = varz_cls()
+  names = {k: 'verif.c18.' + k for k in 'cr'}
+  ops = [(kind, ti) for kind in 'cr' for ti in (0, 1)]
+  viol = []
+  n = 0
+  for seq in itertools.product(ops, repeat=length):
+    amounts = [2 << i for i in range(length)]
+    for slots in itertools.combinations_with_replacement(range(4), length):     # slot of each increment: 0 = before the aggregation starts
+      n += 1
+      VarzReceiver.VARZ_DATA.clear()
+      for kind in 'cr':
+        getattr(V, kind)(fresh(TUPLES[0]), 1)        # both metrics exist, with one series each
+      box = {}
+
+      def agg():
+        box['agg'] = VarzAggregator.Aggregate(VarzReceiver.VARZ_DATA, VarzReceiver.VARZ_METRICS)
+      done = 0
+
+      def apply_slot(k):
+        nonlocal done
+        while done < length and slots[done] == k:
+          kind, ti = seq[done]
+          getattr(V, kind)(fresh(TUPLES[ti]), amounts[done])
+          done += 1
+      apply_slot(0)
+      g = gevent.spawn(agg)
+      step = 1
+      while not g.dead and step < 20:
+        vloop.run_ready(budget=1)
+        apply_slot(min(step, 3) if step <= 2 else 3)
+        step += 1
+      vloop.run_ready()
+      apply_slot(3)
+      bad = None
+      if 'agg' not in box:
+        bad = 'the aggregation did not finish (%r)' % ([(e[1], str(e[2])[:60]) for e in vloop.loop().errors[:1]],)
+      else:
+        for kind in 'cr':
+          got = dict((k, a.total) for k, a in box['agg'].get(names[kind], {}).items())
+          mine = [amounts[i] for i in range(length) if seq[i][0] == kind]
+          ok_totals = [1 + sum(mine[:k]) for k in range(len(mine) + 1)]
+          total = got.get(('service-1', None))
+          if total not in ok_totals or len(got) != 1:
+            bad = 'metric %s: aggregate %r; increments to it, in order: 1 then %r - no prefix of them has that total' % (kind, got, mine)
+            break
+      if bad:
+        viol.append({'clause': 'C18.sum', 'message': 'updates %r with amounts %r placed at aggregation steps %r: %s' % (seq, amounts, slots, bad),
+                     'sig': {'concurrent': True}})
+        if len(viol) >= 3:
+          return {'n': n, 'keys': n, 'viol': viol, 'sample': None}
+  return {'n': n, 'keys': n, 'viol': viol, 'sample': {'concurrent_aggregations': n}}
+
+
 def run_streams(first_vals, length, values):
   """Every sample stream of `length` values (first fixed) x every outcome of the reservoir's random()."""
   from scales.varz import Source, VarzReceiver, VarzAggregator
@@ -380,6 +440,13 @@ def main(tier, seed):
       rep.add_violations(o['viol'])
       rep.sample(o['sample'])
     rep.part('two metric classes with equal suffixes and equal sources', engine='E', sequences=sum(o['n'] for o in out))
+    out = explore.pmap('vt.checks.c18', 'run_concurrent', [(1,), (2,), (3,)] if tier == 'quick' else [(1,), (2,), (3,), (4,)], pool, seed)
+    for o in out:
+      rep.add('evaluations', o['n'])
+      rep.add_violations(o['viol'])
+      if o['sample']:
+        rep.sample(o['sample'])
+    rep.part('increments made while an aggregation is in progress', engine='E', runs=sum(o['n'] for o in out))
   finally:
     pool.close()
     pool.join()
